@@ -14,9 +14,14 @@ package simrt
 import (
 	"math"
 	"runtime"
+	"unsafe"
 )
 
-const MaxTasks = 16
+// MaxTasks bounds caller tasks plus goroutines spawned by the library during a run.
+const MaxTasks = 1024
+
+// MaxCallers is the largest number of caller tasks a run may start with.
+const MaxCallers = 16
 
 const hotWindow = 6
 
@@ -62,8 +67,8 @@ const (
 // EvSwitch/EvBlocked/EvDone/EvStart Next is the task that ran afterwards.
 type Event struct {
 	Kind   uint8  `json:"k"`
-	Task   int8   `json:"t"`
-	Next   int8   `json:"n"`
+	Task   int16  `json:"t"`
+	Next   int16  `json:"n"`
 	Op     int32  `json:"op"`   // operation id inside the run (-1: not in an op)
 	OpStep int64  `json:"os"`   // yields executed inside the op so far (-1: boundary after op)
 	Site   uint32 `json:"site"` // site id of the yield (0 if none)
@@ -106,6 +111,8 @@ type Result struct {
 	InflightGC bool // a GC fault fired while >=1 other task was parked inside an operation
 	PanicOver  bool // set by harness through NotePanic while others were in flight
 	Unstalled  bool
+	Leaked     bool  // a goroutine spawned by the library was still blocked when every caller had returned
+	Spawned    int64 // goroutines spawned by the library during the run
 	Events     []Event
 	Truncated  bool
 	StepsPerOp []int64 // indexed by op id
@@ -122,6 +129,13 @@ type task struct {
 	blockedAt int64
 	atBarrier bool
 	hot       int8 // yields left in the hot window after a shared site
+	child     bool // goroutine spawned by the library (not a caller task)
+	// channel wait registration (see chan.go)
+	waitKey unsafe.Pointer
+	waitDir int8
+	waitFn  func()
+	fire    bool
+	fired   bool
 }
 
 var (
@@ -146,7 +160,9 @@ var (
 	scriptNext  int
 	herdPhase   bool
 	stallArmed  bool
-	maxEvents   = 20000
+	evBuf       = make([]Event, 20000) // preallocated: no append in task context (see locks.go NOTE)
+	nEvents     int
+	pctBuf      [8]int64
 	siteHit     []uint8 // bit0: reached, bit1: preempted at
 	sig         uint64
 	opSteps     []int64
@@ -291,9 +307,10 @@ func fold(a, b, c, d uint64) {
 //go:norace
 func logEvent(kind uint8, t, next int32, site uint32) {
 	tk := &tasks[t]
-	fold(uint64(kind)<<16|uint64(uint8(t))<<8|uint64(uint8(next)), uint64(uint32(tk.op)), uint64(tk.opStep), uint64(site))
-	if len(res.Events) < maxEvents {
-		res.Events = append(res.Events, Event{Kind: kind, Task: int8(t), Next: int8(next), Op: tk.op, OpStep: tk.opStep, Site: site, Step: steps})
+	fold(uint64(kind)<<32|uint64(uint16(t))<<16|uint64(uint16(next)), uint64(uint32(tk.op)), uint64(tk.opStep), uint64(site))
+	if nEvents < len(evBuf) {
+		evBuf[nEvents] = Event{Kind: kind, Task: int16(t), Next: int16(next), Op: tk.op, OpStep: tk.opStep, Site: site, Step: steps}
+		nEvents++
 	} else {
 		res.Truncated = true
 	}
@@ -421,13 +438,13 @@ func noteOverlap() {
 	n := 0
 	cold := false
 	for i := int32(0); i < ntasks; i++ {
-		if tasks[i].op >= 0 && tasks[i].state != tDone {
+		if tasks[i].op >= 0 && tasks[i].state != tDone && !tasks[i].child {
 			n++
 			if tasks[i].opsDone == 0 {
 				cold = true
 			}
 			for j := i + 1; j < ntasks; j++ {
-				if tasks[j].op >= 0 && tasks[j].state != tDone && tasks[j].fam == tasks[i].fam {
+				if tasks[j].op >= 0 && tasks[j].state != tDone && !tasks[j].child && tasks[j].fam == tasks[i].fam {
 					res.SameKey = true
 				}
 			}
@@ -519,6 +536,18 @@ func pickNext(forced bool) int32 {
 //go:norace
 func waitTurn(me int32) {
 	for turn != me {
+		if me >= 0 && tasks[me].fire {
+			// a counterpart matched this task's pending channel operation: perform it now
+			// (the counterpart is blocked for real in the matching operation); the task
+			// itself stays parked
+			t := &tasks[me]
+			t.fire = false
+			f := t.waitFn
+			t.waitFn = nil
+			t.waitKey = nil
+			f()
+			t.fired = true
+		}
 		runtime.Gosched()
 	}
 }
@@ -544,7 +573,15 @@ func switchAway(site uint32, kind uint8) {
 		if kind == EvSwitch {
 			return // nobody else: keep running
 		}
-		// blocked with nobody to make progress: deadlock
+		// blocked with nobody to make progress: deadlock - unless only goroutines spawned
+		// by the library are left (a leaked goroutine is not a caller that never returns)
+		if callersDone() {
+			res.Leaked = true
+			finishRun()
+			for {
+				runtime.Gosched()
+			}
+		}
 		deadlockExit()
 		return
 	}
@@ -570,6 +607,16 @@ func switchAway(site uint32, kind uint8) {
 func noteOverlapWith(next int32) {
 	_ = next
 	noteOverlap()
+}
+
+//go:norace
+func callersDone() bool {
+	for i := int32(0); i < ntasks; i++ {
+		if !tasks[i].child && tasks[i].state != tDone {
+			return false
+		}
+	}
+	return true
 }
 
 //go:norace
@@ -725,6 +772,13 @@ func scriptSwitch(site uint32, kind uint8, next int32) {
 		if kind == EvSwitch {
 			return
 		}
+		if callersDone() {
+			res.Leaked = true
+			finishRun()
+			for {
+				runtime.Gosched()
+			}
+		}
 		deadlockExit()
 		return
 	}
@@ -752,7 +806,11 @@ func afterDone(id, next int32) {
 		logEvent(EvDone, id, -1, 0)
 		for i := int32(0); i < ntasks; i++ {
 			if tasks[i].state != tDone {
-				res.Deadlock = true // others exist but all are blocked without progress
+				if tasks[i].child {
+					res.Leaked = true // a library goroutine is blocked forever: a leak, not a caller that hangs
+				} else {
+					res.Deadlock = true // others exist but all are blocked without progress
+				}
 			}
 		}
 		finishRun()
@@ -835,6 +893,14 @@ func NotePanic() {
 	}
 }
 
+// Fault reports a condition the simulator cannot handle (the run must be discarded and
+// the check must end as a machinery problem, never as a verdict).
+//
+//go:norace
+func Fault() string { return simFault }
+
+var simFault string
+
 // CurTask returns the running task id, -1 outside a run.
 //
 //go:norace
@@ -879,7 +945,8 @@ func setup(n int, p Policy, nops int) {
 	steps = 0
 	progress = 0
 	sig = 0xcbf29ce484222325
-	res = Result{Events: res.Events[:0]}
+	res = Result{}
+	nEvents = 0
 	if cap(opSteps) < nops {
 		opSteps = make([]int64, nops)
 	}
@@ -895,7 +962,7 @@ func setup(n int, p Policy, nops int) {
 	gcNext, scriptNext, pctNext = 0, 0, 0
 	onceReset()
 	herdPhase, stallArmed = false, false
-	pctPoints = pctPoints[:0]
+	pctPoints = pctBuf[:0]
 	switch p.Kind {
 	case PolWalk:
 		nextPlain = geom(p.PPlain)
@@ -922,8 +989,9 @@ func setup(n int, p Policy, nops int) {
 		if est < 2 {
 			est = 2
 		}
-		for i := 0; i < p.Depth; i++ {
-			pctPoints = append(pctPoints, 1+int64(splitmix()%uint64(est)))
+		for i := 0; i < p.Depth && i < len(pctBuf); i++ {
+			pctPoints = pctBuf[:i+1]
+			pctPoints[i] = 1 + int64(splitmix()%uint64(est))
 		}
 		// sort ascending (tiny)
 		for i := 1; i < len(pctPoints); i++ {
@@ -960,8 +1028,14 @@ func collect() Result {
 	r := res
 	r.Steps = steps
 	r.Signature = sig
-	r.Events = append([]Event(nil), res.Events...)
-	r.StepsPerOp = append([]int64(nil), opSteps...)
+	r.Events = make([]Event, nEvents)
+	for i := 0; i < nEvents; i++ {
+		r.Events[i] = evBuf[i]
+	}
+	r.StepsPerOp = make([]int64, len(opSteps))
+	for i := range opSteps {
+		r.StepsPerOp[i] = opSteps[i]
+	}
 	return r
 }
 
@@ -969,7 +1043,7 @@ func collect() Result {
 // It returns when every task has finished, or on deadlock (in which case the unfinished
 // task goroutines are left parked forever and the process should report and exit).
 func Run(n int, nops int, p Policy, body func(id int)) Result {
-	if n < 1 || n > MaxTasks {
+	if n < 1 || n > MaxCallers {
 		panic("simrt: bad task count")
 	}
 	setup(n, p, nops)
